@@ -481,6 +481,33 @@ class Report:
         return r
 
 
+def guard_rules(namespace, extra=()):
+    """Wrap every rule function of a rules module (names r<digits>_..., plus `extra`) so that an AnalysisError raised inside one
+    rule is *deferred* on the report it was given and the remaining rules still run: a violation found by another rule is then
+    reported (exit 1); without any violation the deferred message makes the run an ANALYSIS-ERROR (exit 2) as before."""
+    import functools
+    import re as _re
+
+    def wrap(f):
+        @functools.wraps(f)
+        def inner(*a, **k):
+            rep = next((x for x in a if isinstance(x, Report)), None) or next((x for x in k.values() if isinstance(x, Report)), None)
+            try:
+                return f(*a, **k)
+            except AnalysisError as e:
+                if rep is None:
+                    raise
+                rep.defer(f"{f.__name__}: {e}")
+                return None
+        inner._guarded = True
+        return inner
+
+    for name, obj in list(namespace.items()):
+        if callable(obj) and getattr(obj, "__module__", None) == namespace.get("__name__") and not getattr(obj, "_guarded", False) \
+                and (_re.match(r"r\d+_", name) or name in extra):
+            namespace[name] = wrap(obj)
+
+
 def obl(rep, fn, node, rule, cond, construct, why_ok="", why_bad=None, nontrivial=True):
     """Convenience: obligation located at `node` inside FunctionInfo `fn`."""
     where = fn.loc(node) if node is not None else fn.where
